@@ -1949,7 +1949,8 @@ class UTPM(Ring, RawAlgorithmsMixIn):
         N = numpy.size(x)
         Gamma, rays = exint.generate_Gamma_and_rays(N,d)
 
-        data = numpy.zeros(numpy.hstack([d+1,rays.shape]))
+        # (a complex point keeps its imaginary part)
+        data = numpy.zeros(numpy.hstack([d+1,rays.shape]), dtype=numpy.result_type(x.dtype, float))
         data[0] = x
         data[1] = rays
         return cls(data)
